@@ -40,6 +40,7 @@ def run(ck, ix, tier):
     memo.rule_context_chain_graph(ck, ix)
     memo.rule_quantity_dimensionality_memo(ck, ix)
     memo.rule_unit_dimensionality_memo(ck, ix)
+    memo.rule_lazy_prefixed_units(ck, ix)
     memo.rule_lru_purity(ck, ix)
     memo.rule_shared_mutable_state(ck, ix)
     inventory(ck, ix)
